@@ -161,11 +161,13 @@ def build(seed, tier):
                 op['pos'] = [r.choice(['0.5', '1', '0'])]
             else:
                 m = r.random()
-                if m < 0.25:
+                if m < 0.05:
+                    kw['message'] = "''"            # an explicit message, which happens to be empty
+                elif m < 0.25:
                     kw['message'] = repr('explicit %d' % i)
                 elif m < 0.45:
                     kw['message_template'] = repr(r.choice(['custom {value}', 'custom {who:name} {where:line} {value:python_value}',
-                                                            'no fields', '{value:>5}|']))
+                                                            'no fields', '{value:>5}|', '']))
             for f in ('value', 'who', 'where'):
                 if cls == 'give_partial' and f == 'value':
                     continue          # give_partial(value) takes its score positionally
